@@ -90,7 +90,7 @@ func planC16(tier string, seed int64) (*core.Plan, error) {
 				emit(core.Case{"kind": "whenread", "fixture": "S5", "store": store, "tree": t})
 				// write one guarded leaf whose parent exists
 				for k := 0; k < 3; k++ {
-					sn := guarded[r.Intn(len(guarded))]
+					sn := guarded[(3*i+k)%len(guarded)] // every guarded leaf in turn
 					for _, parent := range parentsOf(t, sn.SP) {
 						leaf := parent.Child(abs.S(sn.SP[len(sn.SP)-1]))
 						emit(core.Case{"kind": "whenedit", "fixture": "S5", "store": store, "tree": t, "leaf": leaf, "v": []string{"a", "z"}[r.Intn(2)]})
@@ -99,7 +99,7 @@ func planC16(tier string, seed int64) (*core.Plan, error) {
 				}
 				lp := abs.Path{abs.S("lst")}
 				if t.HasCont(lp) {
-					emit(core.Case{"kind": "where", "fixture": "S5", "store": store, "tree": t, "list": lp, "cond": whereConds[r.Intn(len(whereConds))]})
+					emit(core.Case{"kind": "where", "fixture": "S5", "store": store, "tree": t, "list": lp, "cond": whereConds[i%len(whereConds)]}) // every condition in turn, on every kind of store
 				}
 				if i%2 == 0 {
 					var events []*abs.Tree
@@ -107,7 +107,7 @@ func planC16(tier string, seed int64) (*core.Plan, error) {
 						ev := g.Subtree(abs.Path{abs.S("evt")})
 						events = append(events, ev)
 					}
-					emit(core.Case{"kind": "filter", "fixture": "S5", "events": events, "cond": filterConds[r.Intn(len(filterConds))]})
+					emit(core.Case{"kind": "filter", "fixture": "S5", "events": events, "cond": filterConds[(i/2)%len(filterConds)]})
 				}
 			}
 		}})
